@@ -219,6 +219,18 @@ def enum_unary(dts):
 REDS = ("sum", "prod", "amax", "amin", "all", "any")
 
 
+def enum_two_argument_functions(dts):
+    """arctan2 over every pair of dtypes (the result type is that of both
+    arguments, not of the first)"""
+    import pytato as pt
+    for d1, d2 in itertools.product(dts, dts):
+        yield (f"arctan2({d1}, {d2})", f"arctan2|dtypes|{_k(d1)}{_k(d2)}", True,
+               lambda d1=d1, d2=d2: np.arctan2(_ones((2, 3), d1),
+                                               _ones((2, 3), d2)),
+               lambda d1=d1, d2=d2: pt.arctan2(_ph("a", (2, 3), d1),
+                                               _ph("b", (2, 3), d2)))
+
+
 def enum_reductions(dts):
     import pytato as pt
     for name in REDS:
@@ -232,6 +244,9 @@ def enum_reductions(dts):
             axes = [None] + list(range(-nd - 1, nd + 2))
             axes += [t for r in (0, 2) for t in itertools.permutations(
                 range(-nd, nd), r)][:40]
+            # an axis named twice (NumPy: ValueError)
+            axes += [(k, k) for k in range(nd)] + (
+                [(0, 1, 0), (1, 0, 1)] if nd >= 2 else [])
             for ax in axes:
                 yield (f"{name}(float64{list(shape)}, axis={ax})",
                        f"{name}|axis|{'neg' if (isinstance(ax, int) and ax < 0) or (isinstance(ax, tuple) and any(a < 0 for a in ax)) else 'pos'}",
@@ -408,6 +423,14 @@ def enum_axis():
                                                       1, axis=ax),
                    lambda shape=shape, ax=ax: pt.roll(_ph("a", shape, "float64"),
                                                       1, axis=ax))
+            for sh in (0, -2, 5):
+                # (also the shifts that are, or amount to, no shift at all)
+                yield (f"roll({list(shape)}, {sh}, axis={ax})",
+                       f"roll|axis|{neg}|shift{sh}", True,
+                       lambda shape=shape, ax=ax, sh=sh: np.roll(
+                           _ones(shape, "float64"), sh, axis=ax),
+                       lambda shape=shape, ax=ax, sh=sh: pt.roll(
+                           _ph("a", shape, "float64"), sh, axis=ax))
             yield (f"expand_dims({list(shape)}, {ax})",
                    f"expand_dims|axis|{neg}", True,
                    lambda shape=shape, ax=ax: np.expand_dims(
@@ -526,6 +549,7 @@ def enum_misc(dts):
 
 def all_calls(dts):
     return itertools.chain(enum_binary(dts), enum_unary(dts),
+                           enum_two_argument_functions(dts),
                            enum_reductions(dts), enum_where_dtypes(dts),
                            enum_broadcast(), enum_index(), enum_axis(),
                            enum_misc(dts))
